@@ -134,7 +134,8 @@ func verifDrawClass(rng *rand.Rand, class string) verifDraw {
 		d.aux = t.UTC().Format(time.RFC3339Nano)
 		return d
 	case "str_url":
-		return str(pick("https://example.org/users/alice", "https://xn--bcher-kva.example/a?b=c#d", "http://h:8080/", "https://user@h.example/p%20q", "/relative/path", "mailto:someone@example.org"))
+		return str(pick("https://example.org/users/alice", "https://xn--bcher-kva.example/a?b=c#d", "http://h:8080/", "https://user@h.example/p%20q", "/relative/path", "mailto:someone@example.org",
+			"https://Social.Example/Users/Alice", "//CDN.Example/Videos/X.mp4", "https://BÜCHER.example/ü", "HTTPS://Example.ORG:8443/A?B=C#D"))
 	case "str_url_bad":
 		return str(pick("http://[::1", "%zz", "http://a b.example/", ":foo", "https://h.example/%", "http://h.example:port/"))
 	case "str_mime":
